@@ -15,7 +15,7 @@ import (
 func init() {
 	register("C19",
 		"nothing of note beyond AX-YEAR (years outside 0..9999 print wider) and the ranges of month/day/hour/minute/second, which R07.2 establishes at the only allocation site of Solar; a re-implementation of ToYmd/ToYmdHms that is not a single Sprintf is reported as undecided (fails) even if it is correct.",
-		r19_1, r19_2, r19_3, r19_4, r17_1, r19_5)
+		r19_1, r19_2, r19_3, r19_4, r17_1, r19_5, r19_6, r17_5)
 }
 
 func r19_1(c *Ctx, r *Report) {
